@@ -106,10 +106,13 @@ static void mutex_tasks()
 }
 
 // timed_mutex: B's try_lock_for must succeed when the only competitor unlocked before B's deadline
+template <int FIXED>
 static void timed_mutex_pair()
 {
-    int a_yields = pmc_choose(2, 0);
-    int b_form = pmc_choose(2, 0);    // 0: try_lock_for, 1: try_lock_until
+    // FIXED: the one program in which a notified timed waiter must find the mutex owned again
+    int a_yields = FIXED ? 1 : pmc_choose(2, 0);
+    int b_form = FIXED ? 0 : pmc_choose(2, 0);    // 0: try_lock_for, 1: try_lock_until
+    int a_relock = FIXED ? 1 : pmc_choose(3, 0);  // 0: no; 1: A re-locks and holds across B's deadline; 2: via try_lock
     Shared s;
     pika::timed_mutex m;
     pmc_watch(&m, sizeof m, "timed_mutex");
@@ -125,6 +128,23 @@ static void timed_mutex_pair()
         leave(s);
         m.unlock();
         t_unlocked = pmc_now();
+        if (a_relock)
+        {
+            // second critical section that spans B's deadline (if B is waiting): a notified timed
+            // waiter must find the mutex owned again and give up
+            bool got = true;
+            if (a_relock == 1) m.lock(); else got = m.try_lock();
+            if (got)
+            {
+                enter(s, m);
+                // hold the mutex across B's deadline without producing progress events: block this
+                // worker in an (interposed) sleep of 60 virtual ms
+                if (b_called && b_result < 0) { struct timespec ts = {0, 60000000}; nanosleep(&ts, nullptr); }
+                PMC_ASSERT(s.occupancy == 1, "mutual-exclusion", "occupancy %d while the re-locking owner holds the mutex", s.occupancy);
+                leave(s);
+                m.unlock();
+            }
+        }
         ++s.finished;
     });
     rt::spawn([&] {
@@ -146,7 +166,7 @@ static void timed_mutex_pair()
     PMC_ASSERT(s.finished == 2, "task-lost", "%d of 2 tasks finished", s.finished);
     // A locks exactly once and never again: if its unlock returned (virtual time) before B's
     // deadline, B was either never blocked or was notified before the deadline
-    if (t_unlocked + 2000 < b_deadline)
+    if (t_unlocked + 2000 < b_deadline && !a_relock)
         PMC_ASSERT(b_result == 1, "timed-lock-missed", "try_lock_%s returned false although the only owner unlocked %.3f ms before the deadline",
             b_form ? "until" : "for", (b_deadline - t_unlocked) / 1e6);
     pmc_outcome("b=%d a_first=%d unlocked_before_deadline=%d", b_result, a_first, (int) (t_unlocked < b_deadline));
@@ -263,7 +283,8 @@ int main(int argc, char** argv)
         {"mutex_2x1", mutex_tasks<pika::mutex, 2, 1, 3>, 2, 3, 0.45, 0.3, 1, focus, nullptr, nullptr},
         {"mutex_3x1", mutex_tasks<pika::mutex, 3, 1, 4>, 1, 2, 0.1, 0.3, 1, focus, nullptr, nullptr},
         {"mutex_2x2", mutex_tasks<pika::mutex, 2, 2, 3>, 1, 2, 0.1, 0.15, 1, focus, nullptr, nullptr},
-        {"timed_mutex_pair", timed_mutex_pair, 1, 2, 0.1, 0.1, 1, "F-addr: timed_mutex + both tasks' thread_data; early-timeout deviation = clock jump to B's deadline", nullptr, nullptr},
+        {"timed_mutex_relock", timed_mutex_pair<1>, 2, 3, 0.1, 0.1, 1, "F-addr: timed_mutex + both tasks' state words; fixed program: owner unlocks, re-locks and holds across the timed waiter's deadline", nullptr, nullptr},
+        {"timed_mutex_pair", timed_mutex_pair<0>, 1, 2, 0.1, 0.1, 1, "F-addr: timed_mutex + both tasks' thread_data; early-timeout deviation = clock jump to B's deadline", nullptr, nullptr},
         {"recursive_mutex_2", recursive_tasks<pika::detail::recursive_mutex_impl<pika::mutex>, 2>, 1, 2, 0.1, 0.1, 1, "F-addr: recursive_mutex_impl<pika::mutex> + thread_data", nullptr, nullptr},
         {"recursive_spin_2", recursive_tasks<pika::detail::recursive_mutex_impl<>, 2>, 1, 2, 0.1, 0.1, 1, "F-addr: recursive_mutex (recursion_count, locking_context, inner mutex) + thread_data", nullptr, nullptr},
         {"spinlock_2x1", mutex_tasks<pika::concurrency::detail::spinlock, 2, 1, 3>, 1, 3, 0.05, 0.05, 1, "F-addr: concurrency::detail::spinlock + thread_data", nullptr, nullptr},
